@@ -4,5 +4,6 @@ CONSTANTS
     Kinds = {"T", "C", "R", "L", "N", "H"}
     MaxLen = 4
     ReadSizes = {1, 2, 3, 4}
+    WindowUnits = 2
     Short = FALSE
 INVARIANT GenPrint
